@@ -91,7 +91,7 @@ class Engine:
         s.m = module
         s.models = dict(BUILTIN_MODELS)
         if models: s.models.update(models)
-        s.solver = z3.Solver(); s.sol_stack = []; s.solver.set('timeout', 8000); s.portfolio_s = 150
+        s.solver = z3.Solver(); s.sol_stack = []; s.portfolio_s = 150      # (z3 'timeout' costs a timer thread per check: only set on request, see --z3-timeout)
         s.gaddr = {}        # global name -> address
         s.faddr = {}        # function name -> address ; reverse
         s.addr2f = {}
@@ -632,7 +632,8 @@ class Engine:
     def push_call(s, st, name, args, res_reg):
         while name in s.m.aliases and s.m.aliases[name].kind == 'glob': name = s.m.aliases[name].name
         f = s.m.funcs.get(name)
-        if f is None or name[1:] in s.models:
+        # a function DEFINED in the module (real code, or a harness-level seam such as a virtual clock) wins over a built-in model
+        if f is None or (name[1:] in s.models and name[1:] in FORCE_MODEL):
             mdl = s.models.get(name[1:])
             if mdl is None: raise Unsupported('unmodelled external ' + name)
             s.models_used.add(name[1:])
@@ -1002,7 +1003,7 @@ class Engine:
             if ins.op == 'invoke': s.jump(st, fr, ins.normal)
             return
         before = len(st.stack)
-        is_model = (name not in s.m.funcs) or nm in s.models
+        is_model = (name not in s.m.funcs) or (nm in s.models and nm in FORCE_MODEL)
         if is_model:
             snap = st.fork() if nm not in SYNC_MODELS else None
             st.want_sched = False
@@ -1166,6 +1167,7 @@ def conc_eq(e, st, b, c):
     t = e.feasible(st, x == y); f = e.feasible(st, x != y)
     if t and f: raise NeedFork(x == y)
     return t
+FORCE_MODEL = set()      # models that replace a module definition (none so far)
 class ForkOn(Exception):
     def __init__(s, cond): s.cond = cond
 class Block(Exception):
@@ -1718,12 +1720,13 @@ def main():
     ap.add_argument('--max-paths', type=int, default=200000)
     ap.add_argument('--max-steps', type=int, default=2000000)
     ap.add_argument('--budget', type=float, default=3600.0)
-    ap.add_argument('--stop-first', action='store_true'); ap.add_argument('--max-depth', type=int, default=600)
+    ap.add_argument('--stop-first', action='store_true'); ap.add_argument('--max-depth', type=int, default=600); ap.add_argument('--z3-timeout', type=int, default=0)
     a = ap.parse_args()
     t0 = time.time()
     m = ir2c.parse_module(open(a.ll).read())
     def mk():
         e = Engine(m); e.max_preempt = a.preempt; e.max_timeouts = a.timeouts; e.max_paths = a.max_paths; e.max_steps = a.max_steps; e.max_depth = a.max_depth
+        if a.z3_timeout: e.solver.set('timeout', a.z3_timeout)
         e.deadline = t0 + a.budget; return e
     e = mk()
     out = {'entry': a.entry, 'status': 'ok', 'passes': 1}
